@@ -30,6 +30,7 @@ func runC17(w *World, r *Report) {
 	ruleOvSym(w, r)
 	ruleInSets(w, r)
 	ruleSetShape(w, r)
+	ruleIntBase(w, r)
 	// arity / type-error discipline of the two operators
 	restrictTo(w, r, []string{"listIn", "listOverlap"})
 }
